@@ -282,6 +282,7 @@ def run(ctx):
     from mstatic.rules import shared as _sh
     _sh.inbound_before_publish(ctx, r9)
     _sh.requires_read_with_defaults(ctx, r9)
+    _sh.upstream_states_are_completed_states(ctx, r9)
     r10 = ctx.rule('R10', 'cached publish spec objects are only extended '
                    'with content of their own scope', 'ownership/dataflow')
     shared_publish_specs(ctx, r10)
